@@ -207,6 +207,21 @@ func runC19(r *Run) {
 				cs.writes = append(cs.writes, c19Unencodable{bad})
 				continue
 			}
+			if t.Pct(15) {
+				// top-level json.RawMessage values: nil encodes as null, valid bytes as
+				// themselves, invalid bytes cannot be encoded
+				switch t.Draw(4) {
+				case 0:
+					cs.writes = append(cs.writes, json.RawMessage(nil))
+				case 1:
+					cs.writes = append(cs.writes, json.RawMessage(`{"raw":[1,2,{"x":null}]}`))
+				case 2:
+					cs.writes = append(cs.writes, c19Unencodable{json.RawMessage(`{"raw":`)})
+				default:
+					cs.writes = append(cs.writes, c19Unencodable{json.RawMessage(`not json at all`)})
+				}
+				continue
+			}
 			cs.writes = append(cs.writes, genJSONValue(t, 3, false))
 		}
 		rc.Lib.In().RChunk = t.Weighted(4, 1, 2, 2, 2)
